@@ -27,6 +27,7 @@ from __future__ import annotations
 
 import ast
 import itertools
+import re
 from typing import Any, Callable, Dict, Iterable, List, Optional, Sequence, Set, Tuple
 
 from sa import astq
@@ -580,7 +581,7 @@ def graph_value(it: Interp, fi: FuncInfo, recv: Instance, no_solver: bool = Fals
     if first_kind[1] == "own":
         g = first_kind[2]
         last = max(k for k, kind, x in cand if kind == "own" and x == g)
-        how = f"built in place (`{g}`)"
+        how = f"built in place (`{re.sub(r'_[0-9]+$', '', g)}`" + (", helper inlined)" if re.search(r"_[0-9]+$", g) else ")")
     else:
         last = first_kind[0]
         g = None
@@ -734,11 +735,35 @@ def enumeration_fact(chk) -> Optional[str]:
         gap = reached_all(repo, it.cov, [fi])
         if gap:
             return gap
+    hint = _structural_hint(chk, fi) if problems else ""
     for key, (site, msg, want, got) in problems.items():
-        chk.violation("enumeration-fact", site, msg, K(fi, f"enumeration-{key}"), expected=want, found=got)
+        chk.violation("enumeration-fact", site, msg + hint, K(fi, f"enumeration-{key}"), expected=want, found=got)
     if not problems:
         chk.ok("enumeration-fact", fi.where, f"evaluated on {n_cases} stem lists (every order type of <= 4 arcs, {n_knotted} knotted): the list is exactly the set of greedy-stable assignments, each once, rendered by the fill; pseudoknot-free -> [FCFS]")
     return None
+
+
+def _structural_hint(chk, fi: FuncInfo) -> str:
+    """What the pinned-form stage rules (checks/c16.py) say about the current code, as a pointer to the construct - only their
+    positive findings, never their 'not recognised'."""
+    try:
+        from checks import c16
+        from sa.report import Check
+
+        shadow = Check(chk.pid, chk.tier, chk.repo)
+        shadow.robust |= set(c16.ROBUST) | {"greedy-record", "product-dedup", "product-merge", "product-default", "greedy-init", "components-start", "components-visited", "components-vertices"}
+        for f in (c16.check_components, c16.check_permutation_greedy, c16.check_product):
+            try:
+                f(shadow, fi)
+            except Exception:
+                pass
+        found = [o for o in shadow.obligations if o.status == "violation"]
+        if found:
+            o = found[0]
+            return f" [reading of the code: {o.rule} at {o.site.split(' ')[0]}: {o.detail[:300]}]"
+    except Exception:
+        pass
+    return ""
 
 
 # ---------------------------------------------------------------------------------------------------------------------
@@ -1340,13 +1365,14 @@ def history_fact(chk, queries: Sequence[str] = ENCODER_QUERIES, rule: str = "his
                 kind, val = ask(it, r, q2)
                 got = (kind, _norm_result(val) if kind == "value" else str(val))
                 if got != base[q2]:
+                    want_q2 = base[q2]
                     # which piece of the object's state differs from a fresh copy after q1?
                     it1, r1 = fresh(regs, lp.World(_by_name_solution(opt)))
                     ask(it1, r1, q1)
                     it0, r0 = fresh(regs, lp.World(_by_name_solution(opt)))
                     state = ""
                     for name in list(r1._attrs):
-                        if name in (q1, "entries", "pairs") and name == q1:
+                        if name == q1:
                             continue
                         try:
                             v0 = r0._attrs[name] if name in r0._attrs else it0.getattr_(r0, name, None)
@@ -1355,7 +1381,8 @@ def history_fact(chk, queries: Sequence[str] = ENCODER_QUERIES, rule: str = "his
                         if _norm_result(r1._attrs[name]) != _norm_result(v0):
                             state = f"; after `{q1}` the object's `{name}` is {_show_state(r1._attrs[name])}, on a fresh copy it is {_show_state(v0)}"
                             break
-                    problems.append((anchor.where, f"`{q2}` asked after `{q1}` on the same BpSeq object answers differently than on a fresh copy, for the stems {show(regs)} ({relation_text(regs)}){state}: an earlier query changes state a later one reads", base[q2], got))
+                    q1, q2 = q1.replace("attr:", ""), q2.replace("attr:", "")
+                    problems.append((anchor.where, f"`{q2}` asked after `{q1}` on the same BpSeq object answers differently than on a fresh copy, for the stems {show(regs)} ({relation_text(regs)}){state}: an earlier query changes state a later one reads", want_q2, got))
             if process and not problems and "convert_to_dot_bracket" in {m.split(".")[-1] for m in members}:
                 n += 1
                 w = lp.World(_raising_outcome)
